@@ -36,6 +36,15 @@ BUILT = {
          "containment (DESIGN 7.2), so a new defect is reported through its minimal witness; the A-layer transcription "
          "of printer and parser is not part of this check yet",
          "TLC-generated trees, recorded print/parse/print round trips, TLC-judged against Norm/Eval"),
+ "C07": ("TLC fills the operator slots of token skeletons exhaustively (every ordered pair of the 20 binary operators, "
+         "triples, prefix operators and conditional expressions in every operand position, postfix chains, tuples, "
+         "literals, truncated strings); the real parser and the real Python-AST importer are run on every string and "
+         "TLC judges the trees they return by evaluating them (Eval) in 16 environments against CPython's own eval "
+         "of the same text, plus 'whole input consumed or ParseError'.",
+         "trusted: CPython's eval as ground truth (recorded per environment), PyNum/Eval for the meaning of the returned "
+         "tree, TLC; a reference Python grammar in TLA+ (design-level comparison) is not part of this check yet; "
+         "failing strings are attributed to listed operator-pair patterns",
+         "TLC-generated token strings, recorded parser/importer trees and CPython values, TLC-judged by evaluation"),
 }
 
 REASON_NOT_YET = "check not built yet in this round (planned, see DESIGN.md section 13)"
